@@ -95,6 +95,16 @@ theorem step_returns_copies :
       s == "&State{ NodeName: \"error\", Bs: bs, }") = true ∧
     stmt "Spec.Walk.st" = ["stride.To.Copy()"] := by decide
 
+/-- C06: the allocation and write sites of `Step`, in source order, are the ones the ownership model
+    (`Sheens/Own.lean`, `stepH`) goes through: `From = st.Copy()`; the action; `NewBindings()` for nil
+    bindings; on an action error `bs.Copy()` and two `Extend`s, then `bs.Copy()` for the error node's
+    state; `consider`; `To = st.Copy()`; and for "followed no branch" `bs.Copy().Extendm(…,
+    givenState.Bs.Copy())`. -/
+theorem step_copy_sites :
+    seq "Spec.Step.ownership" =
+      ["Copy", "Exec", "NewBindings", "Copy", "Extend", "Extend", "Copy", "consider", "Copy",
+       "Extendm", "Copy", "Copy"] := by decide
+
 /-- C05: the loop bound, the pop and the remainder reports of `Walk`. -/
 theorem walk_accounting_sites :
     stmt "Spec.Walk.for" = ["i < c.Limit"] ∧ stmt "Spec.Walk.pendings" = ["pendings[1:]"] ∧
